@@ -5,6 +5,7 @@ import (
 	"strings"
 	"testing"
 	"testing/synctest"
+	"time"
 )
 
 // bubble runs f inside a synctest bubble.  Goroutines that the code under test
@@ -21,5 +22,12 @@ func bubble(t *testing.T, f func()) {
 			panic(p)
 		}
 	}()
-	synctest.Test(t, func(t *testing.T) { f() })
+	synctest.Test(t, func(t *testing.T) {
+		// the bubble clock starts at 2000-01-01; sts treats dates before 2010 as
+		// implausible in one place (predecessor look-back), so move to 2021 first
+		time.Sleep(time.Until(bubbleEpoch))
+		f()
+	})
 }
+
+var bubbleEpoch = time.Date(2021, 1, 1, 0, 0, 0, 0, time.UTC)
